@@ -2,8 +2,12 @@
 //! usage: pngv <prop> --tier quick|thorough --seed N --out DIR
 //!        pngv <prop> --replay-case "<case line>"
 mod c14;
+mod c04;
 mod c15;
+mod gen;
 mod pngbuild;
+mod readerrun;
+mod streamrun;
 mod refimpl;
 mod util;
 
@@ -47,6 +51,7 @@ fn main() {
         let r = match prop.as_str() {
             "C14" => c14::replay(case),
             "C15" => c15::replay(case),
+            "C04" => c04::replay(case),
             _ => "unknown-property".to_string(),
         };
         println!("{}", r);
@@ -55,6 +60,7 @@ fn main() {
     match prop.as_str() {
         "C14" => c14::run(&a),
         "C15" => c15::run(&a),
+        "C04" => c04::run(&a),
         _ => {
             eprintln!("unknown property {}", prop);
             std::process::exit(2);
